@@ -22,14 +22,11 @@ CORR_ONLY = ["exactness to degree 2n-1: PROVED for all n for the rule with nodes
              "nodes strictly increasing and strictly inside, weights positive: evaluated per order (the sum b-a is a theorem for exact roots, Lp.C12.gl_weights_sum) on the "
              "implementation's output and, through class B, against the model's 200-bit Newton iteration",
              "convergence of the Newton iteration from the coded start value (termination of while(true))"]
-ASSUMPTIONS = ["weights: 'to rounding' is read as 'to the rounding of the CODED stopping rule': the code (Numerical-Recipes gauleg) stops when "
-               "|z - z1| <= 1e-14 and takes pp from the second-to-last iterate z1, so sum w is off by up to 208 eps relative (n = 1001, audit "
-               "probe with a __float128 reference) where re-evaluating the recurrence at the final z would give 7.6 eps; the NEWTON term below "
-               "is derived from that stopping rule, not calibrated",
+ASSUMPTIONS = ["weights 'to rounding': since fix f38103c pp is evaluated at the returned node, so the tolerance is rounding only: node rounding "
+               "(<= 4 * 2^-53) propagated through the weight's conditioning 2|t|/(1-t^2), plus n/4 * 2^-53 growth of the recurrence; measured worst "
+               "sum w error 7.6 eps (n = 435); before the fix (pp of the previous Newton iterate, stopping rule 1e-14) it was 208 eps (n = 1001)",
                "narrow intervals: the order is limited so that neighbouring end nodes are >= 2 ulp apart (below ~1 ulp strict monotonicity "
                "cannot hold in double precision)",
-               "'exact to rounding' is evaluated as: the Newton stopping tolerance of the code (|z-z1| <= 1e-14, pp taken at z1) "
-               "propagated through the weight formula (relative 2e-14 * 2|t|/(1-t^2) per weight, x1.5 margin) plus K*2^-53 rounding terms",
                "the model's Newton iteration runs in rounded rational arithmetic (2^-200) with a Taylor cosine and a 100-digit "
                "rational pi: validated by the driver self-test (cos(pi/3), cos(pi/4), cos(pi/6), cos(2pi/3)), not verified",
                "std::cos of libm is accurate enough for Newton to converge to root i from the coded start value"]
@@ -39,14 +36,18 @@ TRUSTED = ["props/c12.py oracle: 160-bit fixed-point Legendre recurrence and exa
 P = 160  # fixed-point bits of the oracle
 ONE = 1 << P
 
-# The C++ stops Newton when |z - z1| <= 1e-14 and then uses pp evaluated at z1: the weight of node t (on [-1,1])
-# therefore carries a relative error up to NEWTON * 2|t|/(1-t^2) that is inherent in the algorithm as coded
-# (P''/P' = 2t/(1-t^2) at a root).  "To rounding" is evaluated with this stopping tolerance propagated, plus
-# K*eps rounding terms calibrated on the unchanged tree (seeds 1..8 quick, 1..2 thorough; x16 safety included).
-NEWTON = Fraction(3, 10 ** 14)   # 2*eps_Newton*(1 + 50% margin): observed 0.99 * 2e-14 * cond at knife-edge stops
+# Since fix f38103c the weight is formed with pp = P_n'(z) evaluated at the RETURNED node z (theorem newtonRootPP_pp), so the
+# only first-order error of a weight is the rounding of the node itself: W(z) = 2/((1-z^2) P_n'(z)^2) has
+# W'/W = -2z/(1-z^2) at a root (P'' / P' = 2z/(1-z^2)), i.e. a node error dz moves the weight by cond(t) = 2|t|/(1-t^2)
+# relative, and sum w by at most sum |w| cond dz.  NODE_ULPS bounds dz in units of 2^-53 (nodes agree with the reference to
+# 1.6 * 2^-53 (|a|+|b|)); the recurrence adds a rounding growth proportional to n to pp (measured: n/4).
+# Measured on HEAD (thorough seed 1, quick seeds 1-2): sum w error <= 1.21 * eps * (sum|w|cond + L) [7.6 eps L at n = 435];
+# weight error <= 1.83 * eps * |w| * (1 + cond + n/4).  Constants below carry a x3-4 margin over these.
+NODE_ULPS = 4
+NEWTON = NODE_ULPS * EPS          # (name kept: the former Newton-stopping term 3e-14 is gone with f38103c)
 K_NODE = 4         # |dx|  <= K_NODE * eps * (|a|+|b|)   (audit: worst 1.01, own thorough runs: 1.9)
-K_WEIGHT = 512     # |dw|  <= |w| * (NEWTON*cond(t) + K_WEIGHT * eps * (1 + n/64))
-K_SUM = 64         # |sum w - (b-a)| <= NEWTON * sum |w| cond + K_SUM * eps * |b-a| * (1 + n/64)
+K_WEIGHT = 8       # |dw|  <= |w| * K_WEIGHT * eps * (1 + cond(t) + n/4)
+K_SUM = 4          # |sum w - (b-a)| <= eps * (NODE_ULPS * sum |w| cond + K_SUM * |b-a|)
 
 
 def _intervals(rng, n_int, thorough):
@@ -278,7 +279,7 @@ def oracle_rule(n, a, b, xs, ws, ctx):
     cond = [2 * abs(t) / (1 - t * t) for t in Tq]          # P''/P' at the node
     newton = NEWTON * sum(abs(w) * c for w, c in zip(W, cond))   # stopping tolerance propagated to sum |dw|
     d = abs(sum(W) - (B - A))
-    tol = newton + K_SUM * EPS * L * growth
+    tol = newton + K_SUM * EPS * L
     _worst(ctx, "sumw/tol", float(d / tol))
     if d > tol:
         out.append(("weights do not sum to b-a", "defect %.3g of %.3g (tolerance %.3g)" % (float(d), float(L), float(tol))))
@@ -382,12 +383,11 @@ def _cmp_model(n, x0, x1, xs, ws, tm, idx, orc, ctx):
         dx, dw = abs(Fraction(xs[k]) - mx), abs(Fraction(ws[k]) - mw)
         t = (mx - mid) / h if h else Fraction(0)
         cnd = 2 * abs(t) / (1 - t * t) if abs(t) < 1 else Fraction(0)
-        tolw = abs(mw) * (NEWTON * cnd + K_WEIGHT * EPS * growth)
+        tolw = abs(mw) * K_WEIGHT * EPS * (1 + cnd + Fraction(n, 4))
         if sc:
             _worst(ctx, "node/eps/(|a|+|b|)", float(dx / (EPS * sc)))
         if tolw:
             _worst(ctx, "weight/tol", float(dw / tolw))
-            _worst(ctx, "weight/eps-part-only", float(dw / (abs(mw) * K_WEIGHT * EPS * growth)))
         if bad is None and (dx > K_NODE * EPS * sc or dw > tolw):
             bad = (k, float(dx), float(dw))
     if bad:
@@ -489,7 +489,7 @@ def compare_iseq(rq, impl, model, ctx):
         if len(c) - 1 <= 2 * n - 1:
             exact = sum(ck * (B ** (j + 1) - A ** (j + 1)) / (j + 1) for j, ck in enumerate(c))
             scale = sum(abs(ck) * max(abs(A), abs(B)) ** j for j, ck in enumerate(c)) * abs(B - A)
-            tol = Fraction(256 * (len(c) + 4)) * EPS * scale * (1 + Fraction(n, 64))
+            tol = Fraction(32 * (len(c) + 4)) * EPS * scale * (1 + Fraction(n, 64))
             v = fl(sv)
             if math.isnan(v) or math.isinf(v) or abs(Fraction(v) - exact) > tol:
                 out.append(fail("prop", "polynomial of degree <= 2n-1 not integrated exactly (integrating overload)",
@@ -653,7 +653,7 @@ def compare(rq, impl, model, ctx):
         # exact integral (degree <= 2n-1): the model's rule is exact to 1e-27, so model ~ exact
         exact = sum(ck * (B ** (k + 1) - A ** (k + 1)) / (k + 1) for k, ck in enumerate(c))
         scale = sum(abs(ck) * max(abs(A), abs(B)) ** k for k, ck in enumerate(c)) * abs(B - A)
-        tol = Fraction(256 * (nc + 4)) * EPS * scale * (1 + Fraction(n, 64))
+        tol = Fraction(32 * (nc + 4)) * EPS * scale * (1 + Fraction(n, 64))
         if scale:
             _worst(ctx, "integ/tol", float(abs(Fraction(r[0]) - exact) / tol))
         if abs(Fraction(r[0]) - exact) > tol:
